@@ -81,6 +81,9 @@ def _const_of(e):
     return None
 
 
+NDIM_12 = {"candidates", "annotators"}
+
+
 def _pure(e):
     """Side-effect-free expression usable as a predicate key."""
     for n in ast.walk(e):
@@ -224,6 +227,20 @@ def _assume_into(test, pol, f):
     if isinstance(test, ast.Compare) and len(test.ops) == 1:
         op = test.ops[0]
         l, r = test.left, test.comparators[0]
+        # repository invariant (established by the base-class validators): the `candidates` / `annotators`
+        # arrays whose .ndim is tested are 1-d or 2-d; a test on it therefore fixes a value set
+        if isinstance(l, ast.Attribute) and l.attr == "ndim" and isinstance(l.value, ast.Name) and l.value.id in NDIM_12 \
+                and isinstance(op, (ast.Eq, ast.NotEq, ast.Gt, ast.GtE, ast.Lt, ast.LtE)):
+            c = _const_of(r)
+            if c is not None and isinstance(c.v, int):
+                import operator
+                fn = {ast.Eq: operator.eq, ast.NotEq: operator.ne, ast.Gt: operator.gt, ast.GtE: operator.ge,
+                      ast.Lt: operator.lt, ast.LtE: operator.le}[type(op)]
+                sat = frozenset(Const(d) for d in (1, 2) if fn(d, c.v) == pol)
+                lk = ast.unparse(l)
+                al = f.allowed.get(lk)
+                f.allowed[lk] = sat if al is None else (al & sat)
+                return
         if _pure(l):
             lk = ast.unparse(l)
             c = _const_of(r)
